@@ -340,6 +340,26 @@ class FactoryBattery:
                                 bad("state-for-a-uniform-independent-of-the-order-of-the-draws", info)
                     except Exception as e:
                         bad("sampler-built-by-the-factory-samples", {**info, "exception": f"{type(e).__name__}: {str(e)[:120]}"})
+            # a second chain (other model) on the SAME grid, after the first one has been sampled: nothing may leak between samplers
+            ev += 1
+            try:
+                gshared = CTMCUniformGrid(h=0.05, model=models["hem"])
+                osh = gshared.origin_coordinate.value
+                for meth in (SamplingMethod.BINARYSEARCHTREEADAPTED1D, SamplingMethod.INVERSION, SamplingMethod.ALIAS):
+                    for mname in ("hem", "cgmy"):
+                        p = MarkovChainProcess(model=models[mname], method=meth, grid=gshared)
+                        s = p.sampling
+                        q = create_q_vector(p.model.levy_triplet.nu, gshared) / p.intensity_of_jumps
+                        q[osh] = 0.0
+                        uu = us.copy()
+                        s.uniform.sample = lambda size=1: uu[:size]
+                        inc = np.array([int(np.ravel(x)[0]) for x in s.sample(size=N)])
+                        freq = np.bincount(inc + osh, minlength=len(q)) / N
+                        if np.abs(freq - q).max() > 6.0 / N + 1e-3 * (1 - q.sum()):
+                            k = int(np.argmax(np.abs(freq - q)))
+                            bad("second-chain-on-the-same-grid-has-its-own-law", {"method": meth.name, "model": mname, "state": k - osh, "share_of_the_uniform_grid": float(freq[k]), "target": float(q[k])})
+            except Exception as e:
+                bad("sampler-built-by-the-factory-samples", {"method": "two chains on one grid", "exception": f"{type(e).__name__}: {str(e)[:120]}"})
             # inversion beyond its stored cumulative sums (the store capped at a few entries): stateful index projection
             for mname, m in models.items():
                 ev += 1
